@@ -229,6 +229,45 @@ func patternClass(f field) string {
 	return f.kind
 }
 
+// unsetElems checks a line with one array field that has unset elements: see the call site for what is judged.
+func (t *c20) unsetElems(pre []field, f field, post []field, what string) {
+	c := t.c
+	c.Eval()
+	all := append(append(append([]field{}, pre...), f), post...)
+	got, pi := t.line("", all)
+	cs := map[string]any{"index": t.idx, "what": what, "array": f.kind, "elements": f.elems, "got": got}
+	if pi != nil {
+		c.Viol("fmt:panic:"+pi.Frame+":"+what, pi.Value+"\n"+pi.Stack, cs)
+		return
+	}
+	before, after := refLine("", pre), ""
+	for _, x := range post {
+		after += x.ref
+	}
+	if !strings.HasPrefix(got, before) || !strings.HasSuffix(got, after) || len(got) < len(before)+len(after) {
+		c.Viol("fmt:"+f.kind+":unset-elements:neighbours", fmt.Sprintf("the fields around the array are damaged: %q", got), cs)
+		return
+	}
+	mid := got[len(before) : len(got)-len(after)]
+	if !strings.HasPrefix(mid, f.open) || !strings.HasSuffix(mid, "]") {
+		c.Viol("fmt:"+f.kind+":unset-elements:brackets", fmt.Sprintf("array rendered as %q: opening / closing bracket missing", mid), cs)
+		return
+	}
+	body := mid[len(f.open):]
+	for _, el := range f.elems {
+		if el == "" || el == "\"\"" {
+			continue
+		}
+		i := strings.Index(body, el)
+		if i < 0 {
+			c.Viol("fmt:"+f.kind+":unset-elements:lost", fmt.Sprintf("array rendered as %q: element %s is missing or out of order", mid, el), cs)
+			return
+		}
+		body = body[i+len(el):]
+	}
+	c.Class("unset-elements:" + f.kind)
+}
+
 // exact checks a line that fits the buffer.
 func (t *c20) exact(msg string, fs []field, what string) bool {
 	c := t.c
@@ -335,7 +374,7 @@ func (t *c20) overflow(fill int, f field, what string) {
 
 func randField(r *rand.Rand, e gen.Env) field {
 	n := mkName(r)
-	switch r.Intn(20) {
+	switch r.Intn(21) {
 	case 0:
 		return fUint8(n, uint8(r.Intn(256)))
 	case 1:
@@ -387,6 +426,16 @@ func randField(r *rand.Rand, e gen.Env) field {
 		return fStringArray(n, s)
 	case 18:
 		return fError(errors.New("some error " + n))
+	case 19:
+		var ips []net.IP
+		for i := r.Intn(5); i > 0; i-- {
+			a, _ := e.IP6(r)
+			if r.Intn(2) == 0 {
+				a, _ = e.IP4(r)
+			}
+			ips = append(ips, net.IP(a.AsSlice()))
+		}
+		return fIPArray(n, ips)
 	}
 	return fSprintf(n, struct {
 		A int
@@ -473,6 +522,15 @@ func runC20(c *wk.Ctx) {
 		t.exact("", []field{fIPArray("two", []net.IP{v4.To4(), v4.To4()}), fUint8("after", 1)}, "iparray-v4")
 		t.exact("", []field{fIPArray("mixed", []net.IP{net.ParseIP("2001:db8::1"), v4, net.ParseIP("fe80::1")}), fUint8("after", 2)}, "iparray-mixed")
 		t.exact("", []field{fIPArray("none", nil), fStringArray("none", nil), fByteArray("none", nil), fUint8("after", 3)}, "empty-arrays")
+		// unset elements (a nil net.IP, an empty string): how an unset element is shown is not laid down anywhere, so only the
+		// structure is judged - opening and closing bracket in place, the set elements rendered in order, neighbours intact
+		u6, u4 := net.ParseIP("2001:db8::7"), net.IPv4(10, 1, 2, 3).To4()
+		for k, ips := range [][]net.IP{{nil}, {nil, nil}, {u6, nil}, {nil, u4}, {u4, nil, u6}, {nil, u6, nil, nil, u4}} {
+			t.unsetElems([]field{fUint8("before", uint8(k))}, fIPArray("addrs", ips), []field{fUint8("after", 4), fString("s", "x")}, "iparray-unset-elements")
+		}
+		for k, ss := range [][]string{{""}, {"", ""}, {"a", ""}, {"", "b"}, {"a", "", "b"}} {
+			t.unsetElems([]field{fUint8("before", uint8(k))}, fStringArray("names", ss), []field{fUint8("after", 5)}, "stringarray-empty-elements")
+		}
 	}
 	// (3) random field sequences grown up to the buffer limit
 	n3 := c.N(60_000, 4_000_000)
